@@ -45,6 +45,7 @@ func c19Prepare(w *world.World) *c19Setup {
 	_, _ = w.Filter(s.y.Key()) // y is filtered, its Bind is one of the concurrent entry points
 	w.DeletePod(s.z.Key())
 	s.zOld = takePending(w)
+	w.CreatePod(s.z) // z is re-created under its name: its old incarnation's events are still to be handled
 	s.altConfig = "[" + poolJSON([]string{"10.0.1.0/24"}, []string{"10.10.1.1~10.10.1.3"}, "10.10.1.0/24", "10.10.1.254", 0) + "," +
 		poolJSON([]string{"10.0.2.0/24"}, []string{"10.10.2.1~10.10.2.2"}, "10.10.2.0/24", "10.10.2.254", 2) + "]"
 	return s
@@ -54,8 +55,13 @@ func c19Prepare(w *world.World) *c19Setup {
 func c19Entries(s *c19Setup) map[string]func() {
 	w := s.w
 	py := w.Pods[s.y.Key()]
+	px := w.Pods[s.x.Key()].DeepCopy()
 	return map[string]func(){
 		"filter": func() { _, _ = w.Filter(s.x.Key()) },
+		// a filter for the re-created z, whose IP is still held under its key by the old incarnation
+		"filter-z": func() { _, _ = w.Filter(s.z.Key()) },
+		// a filter for the pod whose bind is another entry point (the scheduler filtering it again)
+		"filter-y": func() { _, _ = w.Filter(s.y.Key()) },
 		// pods of custom workload kinds: the release-policy check asks the CRD key cache (hit for the known kind; a kind
 		// no CRD describes is never cached and re-populates the cache on every request)
 		"filter-crd-known":   func() { _, _ = w.Filter(s.tk.Key()) },
@@ -82,7 +88,7 @@ func c19Entries(s *c19Setup) map[string]func() {
 		// a bind that misses the node-subnet cache (the cache was reset by a configuration change after the filter)
 		"bind-cache-miss": func() { _ = w.Bind("ns", s.y.Name, string(py.UID), "n1b") },
 		"update-running": func() {
-			p := w.Pods[s.x.Key()].DeepCopy()
+			p := px.DeepCopy()
 			q := p.DeepCopy()
 			q.Status.Phase = corev1.PodRunning
 			_ = w.Plugin.UpdatePod(p, q)
@@ -128,7 +134,7 @@ func c19IPAMScenarios(tier string) []*Scenario {
 			out = append(out, mk([]string{names[i], names[j]}))
 		}
 	}
-	for _, pr := range [][]string{{"filter-crd-known", "filter-crd-unknown"}, {"filter-crd-unknown", "filter-crd-unknown"}, {"filter-crd-known", "filter-crd-known"},
+	for _, pr := range [][]string{{"filter-z", "unbind"}, {"filter-z", "resync"}, {"filter-z", "release"}, {"filter-y", "bind"}, {"filter-y", "update-running"}, {"filter-crd-known", "filter-crd-unknown"}, {"filter-crd-unknown", "filter-crd-unknown"}, {"filter-crd-known", "filter-crd-known"},
 		{"filter-crd-unknown", "resync"}, {"filter-crd-known", "reload"}, {"filter-crd-unknown", "bind"}} {
 		out = append(out, mk(pr))
 	}
@@ -152,14 +158,14 @@ func init() {
 			"(allocation tables and pool list, node-subnet cache, last configuration text, CRD key/informer caches, per-network configuration maps incl. the maps handed to requests, host-port table, policy list), instrumented syntactically by field name",
 			"accesses through local aliases of those maps and memory outside the listed fields are not monitored; the Go memory model below sequential consistency is not modelled"}, assumeIPAM...),
 		Rule: "all pairs (and 9 triples) of 13 galaxy-ipam entry points plus pairs with filters for pods of custom (CRD) workload kinds, on one shared plugin instance, and concurrent CNI requests / policy events on one galaxy daemon instance; stateless DFS over all schedules within the preemption bound with the happens-before monitor on in every execution; " +
-			"a reported race, a deadlock or a panic is a violation; distinct = distinct final states; non-trivial = at least two threads wrote",
+			"a reported race, a deadlock or a panic is a violation; distinct = distinct final states; non-trivial = at least two threads wrote; auxiliary (not exhaustive, not counted in the evaluations): the same bodies free-running in a binary built with Go's race detector, reports kept when both accesses are in galaxy code",
 		Jobs: func(tier string) []Job {
 			var jobs []Job
 			for _, sc := range c19IPAMScenarios(tier) {
 				jobs = append(jobs, ExploreJob("C19", sc, oracleNone))
 			}
 			jobs = append(jobs, c19DaemonJobs(tier)...)
-			return jobs
+			return append(jobs, c19RaceJob(tier))
 		}})
 	replayers["C19"] = func(tier string, v coop.Violation) int {
 		return replayExplore("C19", c19IPAMScenarios(tier), oracleNone, v)
